@@ -135,7 +135,12 @@ static void element (long idx) {
       if (s < end && *s == '\n') s++;
       continue;
     }
-    if (!strncmp (s, "PRELOAD ", 8)) { char po[200]; if (sscanf (s, "PRELOAD %199s", po) == 1 && !hx_load (po, 0)) { vx_fail ("C18:harness:case-does-not-load", "%s: cannot load %s: %s", label, po, hx_last_error); cleanup_files (); return; } }
+    if (!strncmp (s, "PRELUDE ", 8)) {
+      /* history: something else is compiled first (it may fail); the expectation of the case does not depend on it */
+      char po[200];
+      if (sscanf (s, "PRELUDE %199s", po) == 1) { hx_load (po, 0); safe_apply_master_ob ("clear_errors", 0); vx_count (5, 1); }
+    }
+    else if (!strncmp (s, "PRELOAD ", 8)) { char po[200]; if (sscanf (s, "PRELOAD %199s", po) == 1 && !hx_load (po, 0)) { vx_fail ("C18:harness:case-does-not-load", "%s: cannot load %s: %s", label, po, hx_last_error); cleanup_files (); return; } }
     else if (!strncmp (s, "LOAD ", 5)) sscanf (s, "LOAD %199s", load);
     else if (!strncmp (s, "CALL ", 5)) sscanf (s, "CALL %79s", call);
     else if (!strncmp (s, "BIN ", 4)) bin = atoi (s + 4);
@@ -311,7 +316,7 @@ int main (int argc, char **argv) {
   load_cases (cf);
   make_lib ();
   hx_boot (libdir, "SaveBinaryDir /c18bin\n", 0);
-  vx_count_name (0, "errors_raised"); vx_count_name (1, "frames_compared"); vx_count_name (2, "loaded_from_binary"); vx_count_name (3, "code_lengths_verified"); vx_count_name (4, "repeated_through_apply_cache");
+  vx_count_name (0, "errors_raised"); vx_count_name (1, "frames_compared"); vx_count_name (2, "loaded_from_binary"); vx_count_name (3, "code_lengths_verified"); vx_count_name (4, "repeated_through_apply_cache"); vx_count_name (5, "after_a_prelude_compile");
   {
     extern int __sanitizer_symbolize_pc (void *, const char *, char *, size_t) __attribute__ ((weak));
     char sym[256];
